@@ -18,6 +18,9 @@ EXPL = ('(R-WORDALG/c++) the same word-level algebra with the resolved AST as fr
         ' (R-WORDALG, ARMv6-M) the Thumb routines are decided on the disassembly of the sources after the divided-to-unified syntax rewrite: exact add / subtract / double / product / square with 32-bit words and, for the fused routines, 2^384 V + Z == T + U p (mod 2^768) at the call of the C++ reduce trampoline.')
 
 
+from ..facts import strip_tmpl, loc_str
+
+
 def run(ctx):
     ctx.explanation = EXPL
     ctx.level = 'other'
@@ -49,3 +52,23 @@ def run(ctx):
         if cfg == 'x64-asm':
             ctx.floor('R-WORDALG routine x aliasing instances[%s]' % cfg, wa, 25)
         ctx.floor('R-NOWRAP unsigned additions[%s]' % cfg, ns, 15)
+        # the field operations may be used in place (their interfaces do not mark the operands non-aliasing): the result with the output
+        # aliasing an input is the result with a separate output (the C18 analysis, on the field layer: fp.hpp, fp_utils.hpp, Fq, Fr)
+        from .. import alias, asmcheck
+        from . import c18
+        tbl = asmcheck.build_tables(cfg, os.path.join(ctx.outdir, 'asm'))
+        an = alias.Analyzer(prog, asm_summary=asmcheck.make_alias_summary(tbl))
+        na = 0
+        for f in c18.entry_functions(prog):
+            if f['l'][0] not in fieldlayer.FIELD_FILES or not c18.is_interface(f):
+                continue
+            for p in an.interface_patterns(f):
+                na += 1
+                try:
+                    hz = an.safe(f, p)
+                except ValueError as e:
+                    raise bm.AnalysisBroken('R-ALIAS cannot model %s: %s' % (f['qn'], e))
+                ctx.ob('R-ALIAS', not hz, 'alias|%s|%s' % (strip_tmpl(f['qn']), alias.fmt_pattern(f, p)), loc_str(f),
+                       hz[0].describe() if hz else '', cfg=cfg,
+                       sample=dict(config=cfg, function=f['qn'][:100], pattern=alias.fmt_pattern(f, p)))
+        ctx.floor('R-ALIAS field-layer in-place patterns[%s]' % cfg, na, 20)
